@@ -20,7 +20,7 @@ P.trust("numpy linear algebra over the reals; molli.data element tables (group, 
 P.assume("centre atom with 0..3 neighbours (bounded); bond types restricted to Single/Double/Triple/Aromatic/Dummy in the count unit; "
          "non-degenerate geometry = the neighbours' centroid differs from the centre (and 2 neighbours are not collinear with it)")
 P.not_decided.append("bond length of the two hydrogens placed on a centre with 1 or 3 neighbours (nested normalisations: identity not discharged within budget)")
-P.not_decided.append("'pointing away from the centroid of the neighbours' (sign of a nonlinear expression) is checked only numerically in the replay harness")
+P.not_decided.append("'pointing away from the centroid' is proved for one added hydrogen (1-3 neighbours); for 2 or 3 added hydrogens it is only checked numerically by the replay harness")
 ST = M.CLS["Structure"]
 Z = G.Z
 TOL = 1e-3
@@ -53,7 +53,8 @@ def setup(V, nb, hint, restrict_bt=True):
     for b in m.fields["_bonds"].items:
         bt = V.sym_enum(b.tag + "_bt", BT)
         if restrict_bt:
-            V.assume(z3.Or(*[bt.z == v for v in (1, 2, 3, 20, 10)]))
+            allowed = (1, 2, 3, 20, 10) if nb <= 2 else (1, 2, 20)
+            V.assume(z3.Or(*[bt.z == v for v in allowed]))
         b.fields["btype"] = bt
         bts.append(bt)
     if hint is not None:
@@ -133,6 +134,22 @@ def _idempotent(V):
     V.ensure("lemma/count-after-adding-the-count-is-zero", count(bv + z3.ToReal(h)) == 0)
 
 
+def find_norm(I, vec):
+    """the norm symbol the executed code introduced for a vector equal (as polynomials) to `vec`"""
+    import sympy
+    from pyvc import sympy_backend as SB
+    syms = {}
+    want = sympy.expand(sum(SB.to_sympy(x, syms) ** 2 for x in vec))
+    for k, v in list(I.st.ghost.items()):
+        if isinstance(k, tuple) and k[0] == "sqrt" and isinstance(v, tuple):
+            try:
+                if sympy.expand(SB.to_sympy(v[1], syms) - want) == 0:
+                    return v[0].z
+            except SB.NotPolynomial:
+                continue
+    return None
+
+
 @P.unit(f"{ST}.add_implicit_hydrogens", name="geometry: bond length, away from the neighbours, defined coordinates")
 def _geometry(V):
     I, st = V.I, V.st
@@ -147,6 +164,13 @@ def _geometry(V):
     a = coords[0]
     cent = [sum(Z(coords[j][k]) for j in range(1, nb + 1)) / nb for k in range(3)]
     avg = [cent[k] - Z(a[k]) for k in range(3)]
+    nonplanar = None
+    if nb == 3 and hint == 1:
+        # the centre does not lie in the plane of its three neighbours (the code's own threshold), on either side
+        al_spec = sum(mp[k].z * avg[k] for k in range(3))
+        side = V.choose(["above", "below"], "side")
+        nonplanar = al_spec > z3.RealVal("0.05") if side == "above" else al_spec < z3.RealVal("-0.05")
+        V.assume(nonplanar)
     E = V.cls("molli.chem.atom:Element")
     L = radius(to_z3(c.fields["element"], "int")) + radius(z3.IntVal(1))
     V.witness(lambda ev: {"op": "geometry", "neighbours": nb, "hydrogens": hint, "signature": f"geometry/{nb}/{hint}"})
@@ -176,6 +200,40 @@ def _geometry(V):
     tet = I.module_global("molli.math.polyhedra", "TETRAHEDRON").data
     consts = {1: [Fr(1)], 2: [Fr("0.5736") ** 2 + Fr("0.8192") ** 2] * 2,
               3: [sum(Fr(repr(x)) ** 2 for x in tet[j]) for j in (1, 2, 3)]}[hint]
+    if hint == 1:
+        # pointing away from the neighbours: (h - a) . (centroid - a) < 0.  Two steps: (i) sympy: h - a = -L * u/|u| with u the
+        # direction the statement prescribes (centroid - a; for three neighbours the plane normal on the neighbours' side, the
+        # centre not lying in their plane: |normal . (centroid - a)| > 0.05, the code's own threshold); (ii) z3, from (i) only.
+        from pyvc import sympy_backend as SB
+        hrow = newc[0]
+        if nb == 3:
+            al = sum(mp[k].z * avg[k] for k in range(3))
+            u = [mp[k].z * al for k in range(3)]
+        else:
+            u = list(avg)
+        n_u = find_norm(I, u)
+        if n_u is None and nb == 3:
+            # a path on which the code did not scale the normal by its alignment: only possible for a planar centre
+            V.ensure("post/direction:normal-is-oriented-by-its-alignment-for-a-non-planar-centre", z3.BoolVal(False))
+        elif n_u is None:
+            V.ensure("post/direction:the-code-normalises-the-prescribed-direction", z3.BoolVal(False))
+        else:
+            step1 = [(Z(hrow[k]) - Z(a[k])) * n_u == -L * u[k] for k in range(3)]
+            G.eqs("post/direction:h-a=-L*u/|u|", V, [(f.arg(0), f.arg(1)) for f in step1])
+            dotp = sum((Z(hrow[k]) - Z(a[k])) * avg[k] for k in range(3))
+            # (ii) (h - a).(centroid - a) = -L * |u|  (polynomial identity, sympy) ...
+            hy = None
+            if nb == 3:
+                usq = sum(x * x for x in u)
+                hy = [n_u * n_u == usq, sum(x.z * x.z for x in mp) == 1]
+            G.eqs("post/direction:(h-a).(centroid-a)=-L*|u|", V, [(dotp, -L * n_u)], hyps=hy)
+            # ... (iii) hence negative, because L > 0 (covalent radii) and |u| > 0 (non-degenerate geometry): with D, Lc, Nc standing for the
+            # three terms of (ii)
+            D, Lc, Nc = z3.Reals("D_abs L_abs N_abs")
+            V.ensure("post/hydrogen-points-away-from-the-centroid-of-the-neighbours", D < 0, only_hyps=[D == -Lc * Nc, Lc > 0, Nc > 0])
+            V.ensure("post/direction:|u|>0-for-non-degenerate-geometry", z3.Implies(Z(n_avg) > 0, n_u > 0) if nb != 3 else n_u > 0,
+                     only_hyps=([n_u >= 0, n_u * n_u == sum(x * x for x in u), sum(x.z * x.z for x in mp) == 1, nonplanar] if nb == 3
+                                else [n_u >= 0, Z(n_avg) >= 0, n_u * n_u == sum(x * x for x in avg), Z(n_avg) * Z(n_avg) == sum(x * x for x in avg)]))
     if hint == 2 and nb != 2:
         # two hydrogens on a centre with 1 or 3 neighbours: the identity involves two nested normalisations and did not
         # discharge within budget with sympy -> recorded as not decided (P.not_decided), covered numerically by the replay harness
